@@ -8,7 +8,7 @@ TECHNIQUE = ("Coq proof that every parsed package produces exactly one of {hook 
              "consumer theorem for the EEDError contents + correspondence with the real Channel with 0..3 registered EED / ENVCHANGE hooks")
 RULE = ("responses with any number and placement of EED packages (info / non-info status) and ENVCHANGE packages with 0..n members (packet size members valid, malformed and out of range), "
         "0..3 EED hooks and 0..3 env hooks registered; one packet, every single cut, random many-cut packetisations, multi-round histories, the same histories with further hooks registered before random packets (between responses and in the middle of one); consumer cases with failing callbacks: "
-        "hook calls (hook index, message / type, old, new), deliveries, Conn.PacketSize() and the EEDError contents are compared with the model's. Non-trivial = input longer than 60 characters; distinct by input.")
+        "hook calls (hook index, message / type, old, new), deliveries, Conn.PacketSize() and the EEDError contents are compared with the model's. Non-trivial = input longer than 60 characters; distinct by input. Further and REFUSED registrations between packets (fn 14): a hook list with a nil at the first / a middle / the last place is rejected and must register nothing (a hook of a refused list that is called later, or a refused list that is accepted, shows up as an event the model does not have); empty packets anywhere (cut-ho); packet sizes at every boundary of the 16-bit length (9, 10, 255, 256, 32767, 32768, 65024, 65535, 65536, 70000) and unparsable numerals.")
 ASSUMPTIONS = ASSUMPTIONS_COMMON + ["registration itself (mutex-guarded append) is not modelled: the model takes the number of hooks in force at each packet (fn 14 varies it on the way); hook i is the i-th registered"]
 LEVEL_TEXT = ("C11_events_of_a_package: for every package, state and hook count: ENVCHANGE yields hook/packet-size events only and is never delivered; an informational EED yields nothing; any other package is "
               "delivered exactly once, an EED after one call of every hook in order. C11_hook_once; C11_exactly_once_under_fragmentation (a retried incomplete package calls no hook twice, for EVERY cut set); "
